@@ -97,6 +97,8 @@ def run(rep, br, proofs, rng, tier):
     g = proggen.Gen(rng, max_depth=3, modules=("time", "m1", "m2"))
     progs = ["t := import(\"time\")\nm := import(\"m2\")\nf := func(a, ...b) { try { return a[0] } catch e { return b } finally { a = -0.0 } }\nreturn [f([1], 2), t.Second, m.g(), -0.0, 0.0, 3u, 'c', bytes(1, 2), {a: [1]}, string(-0.0)]\n",
              "m := import(\"m2\")\nreturn m.bad()\n",
+             "v := import(\"vmod\")\nreturn [v.k, v.name, v.pi, v.flag, v.ch, v.raw, v.u, v.nothing, v.inc(1), v.ns.triple(7), v.ns.depth.inc(1), v.ns.n, v.arr[0](2), v.arr[1], v.arr[2][0](3), v.sm.triple(5)]\n",
+             "v := import(\"vmod\")\nf := func() { w := import(\"vmod\"); return w.ns.triple(2) + v.arr[2][0](1) }\nreturn f()\n",
              "f := func() { return func() { return [1][5] } }\nreturn f()()\n"]
     progs += [g.program() for _ in range(np_)]
     pcases = [mk_case("p%d" % i, "encprog", hexs(s.encode()), *[hexs(m.encode()) for m in MODS]) for i, s in enumerate(progs)]
